@@ -1,5 +1,11 @@
 package type1
 
+import (
+	"crypto/rand"
+
+	"github.com/cloudflare/circl/oprf"
+)
+
 // C16 (request objects): an encoding handed out by Marshal is not changed by anything done to the
 // request object afterwards (decoding another request into it, marshalling again), and the
 // encoding of a decoded request does not depend on the input buffer staying untouched.
@@ -21,4 +27,29 @@ func VerifC16_type1_request_encoding_survives_reuse() {
 	vAssert(vBytesEq(r.Marshal(), wireSnap), "encoding-independent-of-input-buffer")
 	vAssert(vBytesEq(first, snap), "earlier-encoding-still-unchanged")
 	vReach("reused")
+}
+
+// C16 (finalisation reads its argument, nothing behind it): a response cut short is refused even
+// when the bytes that were cut off still sit in the spare capacity of the caller's slice, and the
+// caller's buffer is left as it was.
+func VerifC16_type1_finalize_ignores_spare_capacity() {
+	vUnwind(8)
+	key, err := oprf.GenerateKey(oprf.SuiteP384, rand.Reader)
+	vAssume(err == nil)
+	issuer := NewBasicPrivateIssuer(key)
+	st, err := NewBasicPrivateClient().CreateTokenRequest(vBytesC("challenge", 0, 1), vBytes("nonce", 32, 32), issuer.TokenKeyID(), issuer.TokenKey())
+	vAssume(err == nil)
+	resp, err := issuer.Evaluate(st.Request())
+	vAssume(err == nil && len(resp) == Ne+96)
+	buf := append([]byte{}, resp...)
+	snap := append([]byte{}, resp...)
+	cuts := []int{0, 1, Ne - 1, Ne, Ne + 1, Ne + 47, Ne + 48, Ne + 95}
+	k := cuts[vSplit(vInt("cut", 0, len(cuts)-1), 0, len(cuts)-1)]
+	_, ferr := st.FinalizeToken(buf[:k]) // capacity reaches to the end of the honest response
+	vAssert(ferr != nil, "truncated-response-refused-whatever-lies-behind-it")
+	vAssert(vBytesEq(buf, snap), "response-buffer-unchanged")
+	// and the whole response is accepted afterwards
+	_, ferr = st.FinalizeToken(buf)
+	vAssert(ferr == nil, "complete-response-accepted")
+	vReach("truncated")
 }
